@@ -636,6 +636,15 @@ def worker(mode: str, k: int, n: int, seed: int, tier: str) -> None:
         if k == 0:
             out["wf"] = run_model(["wf"])[0]
             out["chains_ok_3"] = run_model(["chains 3"])[0]
+            out["wf_gen"] = run_model(["wfgen"])[0]
+            out["wf_contr"] = run_model(["wfcontr"])[0]
+            lo = run_model(["litsok " + " ".join(x) for x in UT if x is not None])
+            nc = run_model(["nocontr " + " ".join(x) for x in UT if x is not None])
+            fr2 = run_model(["frag2 " + " ".join(x) for x in UT if x is not None])
+            out["in_frag2"] = sum(1 for x in fr2 if x == "true")
+            out["in_frag2_lits_ok"] = sum(1 for x, y in zip(fr2, lo) if x == "true" and y == "true")
+            out["in_frag2_no_contr"] = sum(1 for x, y in zip(fr2, nc) if x == "true" and y == "true")
+            out["not_in_frag2"] = [core[i] for i, x in zip([i for i, t in enumerate(UT) if t is not None], fr2) if x != "true"]
             fr = run_model(["frag1 " + " ".join(x) for x in UT if x is not None])
             out["in_frag1"] = sum(1 for x in fr if x == "true")
             fr = run_model(["fragup " + " ".join(x) for x in UT if x is not None])
@@ -1107,7 +1116,13 @@ def run(ctx: Any) -> None:
         "fuel: model functions return None when out of fuel (depth 64 in the driver); theorems are statements about defined answers; "
         "on fragment F1 definedness is proved (fuel_sufficient_partial) from chains_ok, which is evaluated on the real class table",
         "fragments: F1 = None, Never, non-generic non-protocol classes other than bool/enums, their literals, flat unions of these; "
-        "F1up = F1 with all ancestors plain; the number of universe types inside is reported (universe_types_in_fragment_F1/F1up)",
+        "F1up = F1 with all ancestors plain; F2 = None, Never, generic instances with per-parameter variance (unbounded nesting), "
+        "promotions, literals incl. bool/enum with the contraction rule, flat unions; family X2 (excluded from transitivity / "
+        "simplified-union theorems) = literals of bool/enum whose value is not a member or whose class has < 2 distinct members; "
+        "the numbers of universe types inside are reported (universe_types_in_fragment_*); the boolean hypotheses wf_ct, wf_gen, "
+        "wf_contr, chains_ok are evaluated on the real class table by the extracted code",
+        "F2 theorems hold for the kinds is_subtype(...) without ignore_type_params and is_proper_subtype(ignore_promotions=True); "
+        "is_proper_subtype with promotions is covered on F1 only",
         "not modelled: protocols/structural subtyping (cases that reach is_protocol_implementation are counted and skipped), "
         "last_known_value, extra_attrs, TypeVars, callables, Type[...], TypedDict, variadic tuples, named tuples, recursive aliases, "
         "InstanceJoiner.seen_instances recursion guard, alt_promote (native ints), strict_optional=False",
@@ -1156,6 +1171,31 @@ def run(ctx: Any) -> None:
             ctx.cov["universe_types_in_fragment_F1"] = r.get("in_frag1")
             ctx.cov["universe_types_in_fragment_F1up"] = r.get("in_frag_up")
             ctx.cov["class_table_wf_ct"] = r.get("wf")
+            ctx.cov["class_table_wf_gen"] = r.get("wf_gen")
+            ctx.cov["universe_types_in_fragment_F2"] = r.get("in_frag2")
+            ctx.cov["universe_types_in_F2_outside_family_X2"] = r.get("in_frag2_lits_ok")
+            ctx.cov["universe_types_in_F2_outside_family_X1"] = r.get("in_frag2_no_contr")
+            ctx.cov["class_table_wf_contr"] = r.get("wf_contr")
+            if r.get("wf_contr") != "true":
+                ctx.broke("C", "wf_contr", "the extracted predicate wf_contr rejects the real class table")
+            nf2 = r.get("not_in_frag2") or []
+
+            def why(a: str) -> str:
+                import re
+                if re.search(r"\bAny\b", a):
+                    return "contains Any"
+                if "Tuple[" in a and not re.search(r"Tuple\[[^\[\]]*, \.\.\.\]$", a):
+                    return "fixed tuple"
+                if "NoReturn" in a:
+                    return "Never inside a union"
+                return "other (protocol class / nested union)"
+            cats: dict[str, int] = {}
+            for a in nf2:
+                cats[why(a)] = cats.get(why(a), 0) + 1
+            ctx.cov["universe_types_outside_F2_by_reason"] = cats
+            if r.get("wf_gen") != "true":
+                ctx.broke("C", "wf_gen", "the extracted coherence/variance predicate wf_gen rejects the real class table: "
+                          "the hypotheses of subtype_trans_F2 do not hold for it")
             ctx.cov["class_table_chains_ok_3"] = r.get("chains_ok_3")
             if r.get("chains_ok_3") != "true":
                 ctx.broke("C", "chains_ok", "promotion chains of the real class table are longer than 3: the fuel bound of "
